@@ -160,6 +160,7 @@ def run_unit(path, rlimit=None, seed=None, extra_args=()):
     else:
         res['status'] = 'undecided'
         res['reason'] = 'verus reported errors that could not be classified: ' + ' | '.join(raw[:5])
+    res['soft_undecided'] = list(u.soft_undecided) + list(undecided)
     if res['status'] == 'ok' and u.soft_undecided:
         res['status'] = 'undecided'
         res['reason'] = ' | '.join(u.soft_undecided)
